@@ -85,6 +85,14 @@ PROPS = {
         required="spec",
         nontrivial="a reader reads at least one insertion, one removal and one modification event",
     ),
+    "C09": dict(
+        domain="world", module="Props.C09",
+        theorems=["C09_actions_after_merge_and_purge", "C09_fifo_exactly_once", "C09_performs_popped_actions",
+                  "C09_action_runs_its_operations", "C09_queue_empty_after_maintain",
+                  "C09_lazy_insert_on_dead_target", "C09_plain_history_unchanged"],
+        required="faithful",
+        nontrivial="a closure queues a further action and a lazy insert/remove meets a target that died in the same frame",
+    ),
     "C11": dict(
         domain="dispatch", module="Props.C11",
         theorems=["C11_stages_conflict_free", "C11_stages_respect_deps", "C11_staged_exactly_once",
@@ -286,6 +294,11 @@ def world_violation(pid, r):
     if pid == "C12":
         if code == 1 and op == sg.RREAD:
             return "the events delivered to a reader differ from the operations performed (op %d)" % pos
+    if pid == "C09":
+        # anything the lazy layer gets wrong shows in the operations performed by a maintain (their results, what
+        # they destroy) or in what is visible afterwards
+        if code in (1, 4) and op is not None:
+            return "deferred work was not applied exactly once, in order, after the merge (first difference at op code %s)" % op
     if pid == "C04":
         if code == 1 and is_store and not stale:
             return "a storage operation returned something else than the plain map (op %d: %s)" % (pos, wg.NAMES.get(op, op))
@@ -327,6 +340,10 @@ def nontrivial_world(pid, r):
             if o and o[0] == 18:
                 kinds |= set(o[2::2])
         return kinds >= {0, 1, 2}
+    if pid == "C09":
+        nested = any(c == sg.LEXEC and sg.LEXEC in p[::1] for c, p in r["hist"])
+        lazy_ops = sum(1 for c, _ in r["hist"] if c in (sg.LINS, sg.LINSALL, sg.LREM, sg.LEXEC, wg.LC))
+        return nested and lazy_ops >= 3 and bool(codes & {wg.D, wg.ED, wg.DM})
     if pid == "C05":
         has_comp = any(c in (wg.C, wg.CX, wg.EB) and len(p) >= 3 for c, p in r["hist"]) or sg.INS in codes
         return reuse and has_comp and bool(codes & {wg.D, wg.DM, wg.ED, wg.DA})
@@ -353,6 +370,10 @@ def gen_store(pid, tier, seed, scale, rng, hists, stats):
         for _ in range((600 if q else 6000) * scale):
             hists.append(sg.events_history(rng, rng.randint(15, 80 if q else 200)))
             stats["event histories"] += 1
+    if pid == "C09":
+        for _ in range((900 if q else 9000) * scale):
+            hists.append(sg.lazy_history(rng, rng.randint(8, 45 if q else 120)))
+            stats["lazy histories"] += 1
     if pid == "C04":
         for sid in range(16):
             for _ in range((40 if q else 400) * scale):
@@ -372,7 +393,7 @@ def gen_store(pid, tier, seed, scale, rng, hists, stats):
 
 FAR_OK = True
 
-STORE_PROPS = ("C03", "C04", "C05", "C08", "C12")
+STORE_PROPS = ("C03", "C04", "C05", "C08", "C09", "C12")
 
 
 def gen_world(pid, tier, seed, scale=1):
@@ -500,6 +521,7 @@ def check_world(pid, tier, seed):
                      "Insert", "Get", "Mask", "Register"),
              "C12": ("RegReader", "ReadEvents", "SetEmission", "Insert", "GetMut", "Remove", "Entry", "Drain", "Delete",
                      "EDelete", "Maintain", "Create", "GetMutOrDefault"),
+             "C09": ("LazyInsert", "LazyInsertAll", "LazyRemove", "LazyExec", "LazyCreate", "Maintain", "Delete", "EDelete"),
              "C04": ("Insert", "Get", "GetMut", "Remove", "Entry", "Drain", "Clear", "Slice", "Mask", "Count")}
     for need in needs.get(pid, ("Create", "DeleteMany", "EDelete", "Maintain", "ProbeAll", "ECreate")):
         if ophist[need] == 0:
